@@ -105,6 +105,8 @@ pub fn err_str(e: &DecodeErr) -> String {
             "I{},{},{},{},{}",
             rd, calc, *end_esc_misaligned as u8, num_padding_bytes, *invalid_padding_bytes as u8
         ),
+        #[allow(unreachable_patterns)]
+        _ => "?unknown-variant".to_string(),
     }
 }
 
@@ -222,10 +224,26 @@ fn run_dec<B: Buffer>(ops: &str) -> String {
 // encb <cap> <hex>     buffer encoder;   enci <k> <hex>   iterator encoder
 // ---------------------------------------------------------------------------------------
 fn run_encb<B: Buffer>(p: &[u8]) -> String {
-    match catch_unwind(|| encode::<B>(p).map(|b| hex(&b))) {
-        Ok(Ok(h)) => format!("ok:{}", h),
-        Ok(Err(_)) => "oom".to_string(),
-        Err(_) => "panic".to_string(),
+    fn show(r: std::thread::Result<Result<String, sml_rs::util::OutOfMemory>>) -> String {
+        match r {
+            Ok(Ok(h)) => format!("ok:{}", h),
+            Ok(Err(_)) => "oom".to_string(),
+            Err(_) => "panic".to_string(),
+        }
+    }
+    // the same bytes through a slice, through an iterator with a loose size hint and through one whose upper bound
+    // over-estimates: the result may depend on the bytes only
+    let slice = show(catch_unwind(|| encode::<B>(p).map(|b| hex(&b))));
+    if p.len() > 20000 {
+        return slice;
+    }
+    let loose = show(catch_unwind(|| encode::<B>(p.iter().filter(|_| true)).map(|b| hex(&b))));
+    let junk = [0x1bu8; 64];
+    let over = show(catch_unwind(|| encode::<B>(p.iter().chain(junk.iter().filter(|_| false))).map(|b| hex(&b))));
+    if slice == loose && slice == over {
+        slice
+    } else {
+        format!("MIXED:slice={},loose={},over={}", slice, loose, over)
     }
 }
 
@@ -396,6 +414,24 @@ fn handle(line: &str) -> String {
             with_cap!(*cap, run_encb, (&p))
         }
         ["alloclim", h] => run_alloclim(&unhex(h)),
+        // enchint: the iterator encoder over an (almost) endless source: size_hint and the first bytes must not panic
+        ["enchint"] => {
+            let r = catch_unwind(|| {
+                let mut e = encode_streaming((0..usize::MAX).map(|x| (x % 251) as u8));
+                let h0 = e.size_hint();
+                let first: Vec<u8> = e.by_ref().take(40).collect();
+                let h1 = e.size_hint();
+                let mut e2 = encode_streaming(std::iter::repeat(0x1bu8));
+                let h2 = e2.size_hint();
+                let second: Vec<u8> = e2.by_ref().take(40).collect();
+                (h0.0 <= h0.1.unwrap_or(usize::MAX), h1.0 <= h1.1.unwrap_or(usize::MAX), h2.0 <= h2.1.unwrap_or(usize::MAX), first.len() + second.len())
+            });
+            match r {
+                Ok((true, true, true, 80)) => "ok".to_string(),
+                Ok(x) => format!("bad:{:?}", x),
+                Err(_) => "P".to_string(),
+            }
+        }
         // encu <hex a> <hex b>: the iterator encoder over a source that yields a, then None once, then b (not fused):
         // the encoder must treat the first None as the end of the payload and never look at the source again
         ["encu", a, b] => {
